@@ -6,11 +6,8 @@
 package tcell
 
 import (
-	"bytes"
 	"fmt"
 	"strings"
-
-	"github.com/gdamore/tcell/v2/terminfo"
 )
 
 // VerifCellDump renders the complete private state of a CellBuffer (used for canonical
@@ -25,115 +22,3 @@ func VerifCellDump(cb *CellBuffer) string {
 	return sb.String()
 }
 
-// ---- synchronous input-parser entry (C02, C03, C11, C12) ----
-
-// VerifParser drives collectEventsFromInput exactly as mainLoop does (append the chunk to
-// the pending buffer, scan without expiry; scan with expiry when the escape timer fires),
-// but synchronously and without a tty, timers or goroutines.
-type VerifParser struct {
-	t   *tScreen
-	buf bytes.Buffer
-}
-
-// VerifNewParser builds a terminfo screen for a private copy of ti (so that nothing is
-// shared between parsers) with the given character set and logical size, without a tty.
-func VerifNewParser(ti *terminfo.Terminfo, charset string, w, h int) (*VerifParser, error) {
-	c := *ti
-	s, err := NewTerminfoScreenFromTtyTerminfo(nil, &c)
-	if err != nil {
-		return nil, err
-	}
-	t := s.(*baseScreen).screenImpl.(*tScreen)
-	enc := GetEncoding(charset)
-	if enc == nil {
-		return nil, ErrNoCharset
-	}
-	t.charset = charset
-	t.encoder = enc.NewEncoder()
-	t.decoder = enc.NewDecoder()
-	t.cells.Resize(w, h)
-	t.w, t.h = w, h
-	return &VerifParser{t: t}, nil
-}
-
-// Feed delivers one read chunk.
-func (p *VerifParser) Feed(chunk []byte) []Event {
-	p.buf.Write(chunk)
-	return p.t.collectEventsFromInput(&p.buf, false)
-}
-
-// Expire is the escape-timeout path.
-func (p *VerifParser) Expire() []Event {
-	return p.t.collectEventsFromInput(&p.buf, true)
-}
-
-// Pending returns a copy of the bytes still buffered.
-func (p *VerifParser) Pending() []byte { return append([]byte{}, p.buf.Bytes()...) }
-
-// Flags returns the parser's cross-call state.
-func (p *VerifParser) Flags() (escaped, buttondn bool) { return p.t.escaped, p.t.buttondn }
-
-// HasClipboard reports whether OSC 52 replies are parsed for this terminal.
-func (p *VerifParser) HasClipboard() bool { return p.t.setClipboard != "" }
-
-// HasMouse reports whether mouse reports are parsed for this terminal.
-func (p *VerifParser) HasMouse() bool { return p.t.ti.Mouse != "" }
-
-// VerifKey is one entry of the built key table.
-type VerifKey struct {
-	Key Key
-	Mod ModMask
-}
-
-// KeyTable returns a copy of the escape-sequence table built by prepareKeys.
-func (p *VerifParser) KeyTable() map[string]VerifKey {
-	m := make(map[string]VerifKey, len(p.t.keycodes))
-	for k, v := range p.t.keycodes {
-		m[k] = VerifKey{v.key, v.mod}
-	}
-	return m
-}
-
-// VerifKeyPasteStart / VerifKeyPasteEnd are the internal pseudo keys of the paste brackets.
-const (
-	VerifKeyPasteStart = keyPasteStart
-	VerifKeyPasteEnd   = keyPasteEnd
-)
-
-// Reset returns the parser to its initial state (empty buffer, no pending Alt prefix, no
-// button held) so that one parser can be reused across enumerated inputs.
-func (p *VerifParser) Reset() {
-	p.buf.Reset()
-	p.t.escaped = false
-	p.t.buttondn = false
-}
-
-// SetFlags forces the cross-call state (used to start exploration from non-initial states).
-func (p *VerifParser) SetFlags(escaped, buttondn bool) {
-	p.t.escaped = escaped
-	p.t.buttondn = buttondn
-}
-
-// Resize sets the logical screen size used to clip mouse coordinates.
-func (p *VerifParser) Resize(w, h int) {
-	p.t.cells.Resize(w, h)
-	p.t.w, p.t.h = w, h
-}
-
-// Strings returns the parameterized / control strings the screen prepared for itself
-// (hard-coded xterm sequences or the entry's overrides), by name.
-func (p *VerifParser) Strings() map[string]string {
-	t := p.t
-	m := map[string]string{
-		"enablePaste": t.enablePaste, "disablePaste": t.disablePaste, "enterUrl": t.enterUrl, "exitUrl": t.exitUrl,
-		"setWinSize": t.setWinSize, "enableFocus": t.enableFocus, "disableFocus": t.disableFocus,
-		"doubleUnder": t.doubleUnder, "curlyUnder": t.curlyUnder, "dottedUnder": t.dottedUnder, "dashedUnder": t.dashedUnder,
-		"underColor": t.underColor, "underRGB": t.underRGB, "underFg": t.underFg,
-		"cursorRGB": t.cursorRGB, "cursorFg": t.cursorFg, "setTitle": t.setTitle, "saveTitle": t.saveTitle,
-		"restoreTitle": t.restoreTitle, "setClipboard": t.setClipboard,
-	}
-	for k, v := range t.cursorStyles {
-		m[fmt.Sprintf("cursorStyle%d", int(k))] = v
-	}
-	return m
-}
